@@ -1,7 +1,8 @@
 """Property registry: which arms decide which property, tiers, and evidence metadata."""
 from types import SimpleNamespace as NS
 
-from .checks import c19a, c15, c16, c05s, c05h, c03
+from .checks import c19a, c15, c16, c05s, c05h, c03, c13s, c13g
+from .refmodel import bitset as _bitset
 
 REAL_COMMON = ['all of elementpath (imported from /repo working tree)', 'CPython re/decimal/json/expat',
                'lxml', 'xmlschema', 'stdlib locale.setlocale/getlocale/normalize (Python level)']
@@ -101,4 +102,26 @@ register(
     ASSUMPTIONS=['step budgets count line events in elementpath files only; time inside C code never yields HANG',
                  'MemoryError and the injected crash exception are never counted as escapes',
                  'an injected setlocale failure never refuses a locale that was installed successfully before'],
+)
+
+register(
+    ID='C13', LEVEL='exploration',
+    ARMS=[(c13s, 0.7), (c13g, 0.3)],
+    WARMUP=c13g.warmup,
+    TIERS={'quick': {'runs': 1500, 'wall_cap': 100, 'minimise_budget': 30},
+           'thorough': {'runs': 30000, 'wall_cap': 800, 'minimise_budget': 90}},
+    RULE='arm c13s: each run = one seeded history (3-60 operations) on a pool of at most 6 UnicodeSubset / '
+         'CharacterClass objects (add, discard, update, difference_update, |= -= &= ^=, | - & ^, complement, clear, '
+         'copy, len/iter/reversed) with operands that are code points, ranges, strings, other pool members, the object '
+         'itself or the shared objects returned by unicode_category/unicode_block, aimed at the overlap geometries of '
+         'the current representation, plus invalid arguments; oracle = 0x110000-bit big-integer model. '
+         'arm c13g: histories of install_unicode_data(version[, url]) over all installable versions with the download '
+         'served by the simulated network (ENOENT, reset, timeout, HTTP errors, incomplete/torn reads), interleaved with '
+         'translate_pattern / CharacterClass uses; exhaustive 0x110000-code-point comparison with unicodedata when the '
+         'installed version is the interpreter\'s. non-trivial = at least 3 operations (c13s) / one install (c13g); '
+         'distinct = distinct operation-name sequence',
+    REAL=REAL_COMMON, STUB=['urllib.request.urlopen for install_unicode_data(url) (SimNet)'],
+    EXPECTED_PROBES=['fault:io:reset-midread', 'fault:io:truncated', 'fault:io:enoent'],
+    ASSUMPTIONS=['category model = unicodedata of the running interpreter (checked only when the installed version equals it)',
+                 'the representation is only required to be sorted, disjoint and non-touching'],
 )
